@@ -6,7 +6,7 @@
    step and lists the directory with the same name filter (correspondence), they are not part
    of the model. *)
 From Coq Require Import NArith List Bool.
-Require Import LF.Gen.ConstsGen LF.Model.PageDB LF.Proofs.CaptureProofs LF.Proofs.ChainProofs LF.Proofs.HistoryProofs LF.Proofs.SqlCheckpointProofs LF.Proofs.ComposeProofs LF.Proofs.ChainHistoryProofs.
+Require Import LF.Gen.ConstsGen LF.Model.PageDB LF.Proofs.XorLib LF.Proofs.ChecksumProofs LF.Proofs.CaptureProofs LF.Proofs.ChainProofs LF.Proofs.HistoryProofs LF.Proofs.SqlCheckpointProofs LF.Proofs.ComposeProofs LF.Proofs.ChainHistoryProofs LF.Proofs.ImportHistoryProofs.
 Import ListNotations.
 Local Open Scope N_scope.
 
@@ -72,6 +72,32 @@ Proof. exact c_chain_step. Qed.
 Theorem C09_refused_file_changes_nothing : forall s f ok s',
   (op_receive s f = (Failed, s') -> s' = s) /\ (op_forward s f ok = (Failed, s') -> s' = s).
 Proof. intros s f ok s'. split; [exact (receive_failed_same s f s')|exact (forward_failed_same s f ok s')]. Qed.
+
+(* the log verifies the database: after every (well-formed) history of those steps the newest file ends at the node's
+   position and its post-apply checksum is the from-scratch checksum of the logical database (the database file in
+   rollback-journal mode, the file overlaid with the log's committed frames [v'] in WAL mode: Props/C04.v) - the number a
+   replica checks the file against is the checksum of the database itself *)
+Theorem C09_history_newest_file_verifies_database : forall lock gs s' v' f rest,
+  1 <= lock -> wf_gsteps (init lock) gs -> run_gsteps (init lock) (fun _ => 0) gs = Some (s', v') ->
+  rev (ltxdir s') = f :: rest ->
+  l_max f = txid s' /\
+  (wal_mode s' = false -> txid s' <> 0 -> l_post f = scratch (fun p => if p =? lock then 0 else file_h s' p) (pageN s')) /\
+  (wal_mode s' = true -> l_post f = scratch (fun p => if p =? lock then 0 else v' p) (pageN s')).
+Proof. exact g_history_newest_file. Qed.
+
+(* Non-vacuity of the above: the fifteen steps of Props/C04.v's example history; the newest file is 10-10 and carries the
+   checksum of the imported two-page database *)
+Example C09_history_newest_file_nonvacuous :
+  let gs := import_example_history ++ [GImport import_example_image 2] in
+  wf_gsteps (init 2097153) gs /\
+  match run_gsteps (init 2097153) (fun _ => 0) gs with
+  | Some (s', _) => match rev (ltxdir s') with
+                    | f :: _ => (wal_mode s', l_max f, l_post f =? fl (N.lxor (fl 41) (fl 42)), txid s') = (false, 10, true, 10)
+                    | [] => False
+                    end
+  | None => False
+  end.
+Proof. exact full_history_example_log. Qed.
 
 (* Non-vacuity: two rollback-journal transactions; a sweep that removes the first file; the switch to WAL mode; a WAL
    commit; a sweep under a backup service that has confirmed up to 4; a restart; a stray file from the stream (refused); a
